@@ -7,7 +7,7 @@ P=$(readlink -f "$1"); TIER=$2; shift 2
 W=$(mktemp -d /tmp/mutw.XXXXXX); rmdir $W
 git -C /repo worktree add -q --detach $W HEAD || exit 2
 ( cd $W && git apply "$P" ) || { echo "patch does not apply"; git -C /repo worktree remove --force $W; exit 2; }
-( cd $W/ociregistry && GOFLAGS=-mod=mod GOPROXY=off GOSUMDB=off GOTOOLCHAIN=local go build ./... ) || { echo "does not build"; git -C /repo worktree remove --force $W; exit 2; }
+( cd $W/ociregistry && GOFLAGS=-mod=mod GOWORK=off GOPROXY=off GOSUMDB=off GOTOOLCHAIN=local go build ./... ) || { echo "does not build"; git -C /repo worktree remove --force $W; exit 2; }
 cd /verif
 for c in "$@"; do
   out=$(VERIF_REPO=$W ./check $c $TIER 2>&1); rc=$?
